@@ -16,6 +16,8 @@
 #include <time.h>
 #include <pthread.h>
 #include <sys/personality.h>
+#include <sys/mman.h>
+#include <fcntl.h>
 #include <atomic>
 #include <unordered_set>
 #include <algorithm>
@@ -30,6 +32,7 @@ static std::atomic<uint64_t> g_progress{0};
 static uint64_t g_cur_seed = 0, g_cur_idx = 0;
 static int g_mode = 0; // 1 search 2 serve
 static int g_flavour = 0;
+static volatile uint64_t *g_status = nullptr; // shared with the parent: [0]=seed [1]=index [2]=run in progress
 
 static double wall_now() {
     struct timespec ts;
@@ -275,6 +278,13 @@ int main(int argc, char **argv) {
         else if (k == "--cpu") cpu = atoi(v);
         else if (k == "--hang") hang_limit = atof(v);
         else if (k == "--flavour") g_flavour = atoi(v);
+        else if (k == "--status") {
+            int fd = open(v, O_RDWR | O_CREAT, 0644);
+            if (fd >= 0 && ftruncate(fd, 64) == 0) {
+                void *m = mmap(nullptr, 64, PROT_READ | PROT_WRITE, MAP_SHARED, fd, 0);
+                if (m != MAP_FAILED) g_status = (volatile uint64_t *)m;
+            }
+        }
     }
     if (cpu >= 0) {
         cpu_set_t cs;
@@ -315,9 +325,11 @@ int main(int argc, char **argv) {
             uint64_t s = sim::mix64(base, idx);
             g_cur_seed = s;
             g_cur_idx = i;
+            if (g_status) { g_status[0] = s; g_status[1] = i; g_status[2] = 1; }
             sim::Plan p;
             g_h->gen(s, tier, p);
             RunInfo ri = run_one(p);
+            if (g_status) g_status[2] = 0;
             A.runs++;
             A.points += ri.st.points; A.switches += ri.st.switches; A.preempt += ri.st.preemptions;
             A.vtime += ri.st.vtime_ns; A.choices += ri.st.choices; A.ops += ri.ops_done;
